@@ -24,12 +24,16 @@ namespace C10
 /-- pre-existing edges join atoms of the system -/
 def WF (S : Sys) : Prop := ∀ e ∈ S.pre, e.1 < S.atoms.length ∧ e.2 < S.atoms.length
 
+instance (S : Sys) : Decidable (WF S) := by unfold WF; infer_instance
+
 /-- `u`, `v` are in one returned molecule -/
 def SameMol (S : Sys) (u v : Nat) : Prop := ∃ m ∈ (run S).mols, u ∈ m ∧ v ∈ m
 
 /-- `u`, `v` are atoms of one residue (same input molecule, chain, number, name, insertion code) -/
 def SameRes (S : Sys) (u v : Nat) : Prop :=
   u < S.atoms.length ∧ v < S.atoms.length ∧ keyAt S.atoms u = keyAt S.atoms v
+
+instance (S : Sys) (u v : Nat) : Decidable (SameRes S u v) := by unfold SameRes; infer_instance
 
 /-- all bonds of the final graph -/
 def finalEdges (S : Sys) : List Edge := allEdges S (run S).nameE (run S).distE
@@ -480,5 +484,65 @@ theorem bonded_iff (S : Sys) (u v : Nat) :
       has S.pre u v = true ∨ has (run S).nameE u v = true ∨ has (run S).distE u v = true := by
   unfold Result.bonded
   simp only [Bool.or_eq_true, or_assoc]
+
+/-! ## the integer distance test is the stated inequality
+
+`d2` is the exact squared distance in (1e-4 nm)².  The real distance `√d2` is not a number of
+the model; it is pinned down by its rational approximations `D/s` (in 1e-4 nm).  The threshold
+`fudge · (ra + rb)/2` with radii in 1e-3 nm is `5 p (ra+rb) / q` in 1e-4 nm, so
+`D/s ≤ threshold ⟺ 2 q D ≤ 10 p s (ra+rb)`.  The two theorems say: the test
+`4 q² d2 ≤ 100 p² (ra+rb)²` holds iff every lower approximation of the distance is at most the
+threshold, equivalently iff the distance is at most the threshold. -/
+
+/-- If the test holds, every lower approximation `D/s ≤ dist` is at most the threshold. -/
+theorem distance_test_sound (p q ra rb d2 D s : Nat) (hD : D * D ≤ s * s * d2)
+    (hw : 4 * (q * q) * d2 ≤ 100 * (p * p) * ((ra + rb) * (ra + rb))) :
+    2 * q * D ≤ 10 * p * s * (ra + rb) :=
+  within_below p q ra rb d2 D s hD (by unfold within; simpa using hw)
+
+/-- If some upper approximation `D/s ≥ dist` is at most the threshold, the test holds. -/
+theorem distance_test_complete (p q ra rb d2 D s : Nat) (hs : 0 < s) (hD : s * s * d2 ≤ D * D)
+    (hle : 2 * q * D ≤ 10 * p * s * (ra + rb)) :
+    4 * (q * q) * d2 ≤ 100 * (p * p) * ((ra + rb) * (ra + rb)) := by
+  have := within_above p q ra rb d2 D s hs hD hle
+  unfold within at this
+  simpa using this
+
+example : 0 < 1 ∧ 1 * 1 * 9 ≤ 3 * 3 ∧ 2 * 1 * 3 ≤ 10 * 1 * 1 * (1 + 1) := by decide
+
+/-! ## non-vacuity: a concrete system satisfying the hypotheses used above
+
+Residue AAA of input molecule 0 has atoms N, CA, C (in the block: N-CA, CA-C bonded, N..C a
+non-bond although 0.139 nm apart) and OXT (unknown to the block, 0.12 nm from C); input
+molecule 1 has the same chain/number/name with a hydrogen 0.09 nm from OXT and a far carbon. -/
+
+def exAtom (mol : Nat) (name el : String) (x y : Int) : Atom :=
+  { mol := mol, chain := some "A", resid := some 1, resname := some "AAA", icode := none,
+    name := some name, element := some el, x := x, y := y, z := 0 }
+
+def exS : Sys :=
+  { atoms := [exAtom 0 "N" "N" 0 0, exAtom 0 "CA" "C" 1400 0, exAtom 0 "C" "C" 700 1200,
+              exAtom 0 "OXT" "O" 700 2400, exAtom 1 "HX" "H" 700 3300, exAtom 1 "CX" "C" 9000 9000],
+    pre := [(0, 3)],
+    ff := [("AAA", { names := ["N", "CA", "C"], edges := [(0, 1), (1, 2)] })],
+    radii := [("H", 120), ("C", 170), ("N", 155), ("O", 152)],
+    allowName := true, allowDist := true, p := 1, q := 1 }
+
+example : WF exS := by decide
+example : exS.allowDist = true := rfl
+example : (run exS).nameE = [(0, 1), (1, 2)] := by decide
+example : (run exS).NE = [(0, 2)] := by decide
+example : (run exS).distE = [(2, 3)] := by decide
+example : (run exS).mols = [[0, 1, 2, 3], [4, 5]] := by decide
+example : (List.range 6).map (serial exS.atoms) = [0, 0, 0, 0, 1, 1] := by decide
+-- hypotheses of `no_fusion_across_molecules`: OXT (molecule 0) and HX (molecule 1), same chain,
+-- number and name, 0.09 nm apart (threshold 0.136 nm)
+example : 3 < exS.atoms.length ∧ 4 < exS.atoms.length
+    ∧ (atomAt exS.atoms 3).mol ≠ (atomAt exS.atoms 4).mol
+    ∧ isH (atomAt exS.atoms 4) = true
+    ∧ within exS.p exS.q 152 120 (dist2 (atomAt exS.atoms 3) (atomAt exS.atoms 4)) = true := by decide
+-- hypothesis of `residue_whole` / `split_connected`
+example : SameRes exS 0 3 := by decide
+example : SameMol exS 0 3 := ⟨[0, 1, 2, 3], by decide, by decide, by decide⟩
 
 end C10
